@@ -59,6 +59,10 @@ def gen(prop, stream, tier, avoid):
             spec["trim"] = _gen_trim(rng)
         elif rng.chance(0.15):
             spec["trim_tessellator_without_trims"] = True     # the trim-aware tessellator on a surface that has no trim
+        elif rng.chance(0.25):
+            # knot vectors kept in their original range a + L*[0, 1] (normalize_kv=False); the mesh parameters stay in [0, 1]
+            spec["aL"] = [[rng.pick([-2.0, 0.0, 1.0, 3.5]), rng.pick([0.5, 1.0, 2.0, 4.0])] for _ in range(2)]
+            spec["knots"] = [shapes.affine_knots(kv, a, L) for kv, (a, L) in zip(spec["knots"], spec["aL"])]
         objs.append(spec)
     use_cont = kn.chance(0.6)
     nops = kn.pick([3, 4, 5, 6, 8, 10, 14, 20] + ([30, 40] if tier == "thorough" else []))
@@ -192,6 +196,15 @@ def _tri_area_uv(a, b, c):
     return 0.5 * ((b[0] - a[0]) * (c[1] - a[1]) - (c[0] - a[0]) * (b[1] - a[1]))
 
 
+def _to_domain(surf, uv):
+    """Mesh vertices carry parameters in [0, 1] x [0, 1]; a surface whose knot vectors are kept un-normalised lives on its own domain."""
+    out = []
+    for x, (lo, hi) in zip(uv, surf.domain):
+        x = min(1.0, max(0.0, x))
+        out.append(lo + x * (hi - lo))
+    return out
+
+
 def check_mesh(ctx, V, F, surf, what, sig, expect_spacing=None, sample=None, trim=None, id_offset=0):
     """V: list of (id, uv, data); F: list of vertex-id triples. Raises through ctx.fail on a violation."""
     n = len(V)
@@ -212,7 +225,7 @@ def check_mesh(ctx, V, F, surf, what, sig, expect_spacing=None, sample=None, tri
     for vid, uv, data in V:
         if not (-1e-12 <= uv[0] <= 1 + 1e-12 and -1e-12 <= uv[1] <= 1 + 1e-12):
             ctx.fail("mesh_invalid", "%s: vertex %d has parameters %r outside the domain" % (what, vid, uv), check="uv_range", **sig)
-        p = surf.evaluate_single([min(1.0, max(0.0, uv[0])), min(1.0, max(0.0, uv[1]))])
+        p = surf.evaluate_single(_to_domain(surf, uv))
         ok, why = close(list(data), list(p), 1e-9)
         if not ok:
             ctx.fail("vertex_off_surface", "%s: vertex %d at uv=%r is at %r but the surface evaluates to %r there" % (what, vid, uv, list(data), list(p)),
@@ -225,7 +238,7 @@ def check_mesh(ctx, V, F, surf, what, sig, expect_spacing=None, sample=None, tri
         ref_model = None
     if ref_model is not None and V:
         for vid, uv, data in [V[0], V[len(V) // 3], V[(2 * len(V)) // 3], V[-1]]:
-            q = ref_model.eval_float([min(1.0, max(0.0, uv[0])), min(1.0, max(0.0, uv[1]))])
+            q = ref_model.eval_float(_to_domain(surf, uv))
             ok, why = close(list(data), q, 1e-8)
             if not ok:
                 ctx.fail("vertex_off_surface", "%s: vertex %d at uv=%r is at %r but the surface its definition describes is at %r there (reference model)" % (
@@ -449,7 +462,9 @@ def run(script, ctx):
     simdisk.install(disk)
     world = []
     for spec in script["objects"]:
-        o = shapes.build(spec)
+        o = shapes.build(spec, normalize_kv=False) if spec.get("aL") else shapes.build(spec)
+        if spec.get("aL"):
+            ctx.probe("unnormalised_surface")
         o.sample_size = 14 if spec.get("trim") else 4      # fine enough for cells deep inside / well outside a trim to exist
         st = SurfState(o, spec)
         if st.trim:
@@ -579,11 +594,12 @@ def run(script, ctx):
                        dict(op=k, trimmed=False), expect_spacing=sp, sample=(nu, nv), id_offset=V[0][0] if V else 0)
         elif k == "subeval":
             a_, b_, c_, d_ = op["range"]
+            (ulo, uhi), (vlo, vhi) = s.domain
             kw = {}
             if "u" in op["dirs"]:
-                kw.update(start_u=a_, stop_u=b_)
+                kw.update(start_u=ulo + a_ * (uhi - ulo), stop_u=ulo + b_ * (uhi - ulo))
             if "v" in op["dirs"]:
-                kw.update(start_v=c_, stop_v=d_)
+                kw.update(start_v=vlo + c_ * (vhi - vlo), stop_v=vlo + d_ * (vhi - vlo))
             s.evaluate(**kw)
             ctx.log("subeval", i, sorted(kw.items()))
             ctx.ops_executed += 1
